@@ -18,6 +18,8 @@ class FlipperAltChar(SimpleCommand):
     def verify_arg(self, arg: Line) -> str | None:
         return (
             None
-            if arg.content.strip().isdigit() and len(arg.content.strip()) <= 4
+            if arg.content.strip().isdigit()
+            and arg.content.strip().isascii()
+            and len(arg.content.strip()) <= 4
             else "Argument must be a number, and 4 digits or less."
         )
